@@ -134,6 +134,84 @@ Proof.
   intros H; inversion H; auto.
 Qed.
 
+Lemma slot_at_noslot tr t es r j :
+  (forall e, In e es -> is_cli_named "g_slot" e = false) -> slot_at (tr ++ Conc.tag t es) r j = slot_at tr r j.
+Proof.
+  intros H. rewrite slot_at_app. generalize (slot_at tr r j). unfold Conc.tag.
+  induction es as [|e es IH]; intros z; cbn; [reflexivity|].
+  rewrite IH by (intros; apply H; now right). f_equal.
+  pose proof (H e (or_introl eq_refl)) as H1.
+  destruct e as [k o b|n args]; [reflexivity|]. cbn in *.
+  destruct args as [|x [|y [|z' [|w rest]]]]; try reflexivity. now rewrite H1.
+Qed.
+
+Lemma last_sb_nosb tr t es t' :
+  (forall e, In e es -> is_cli_named "g_scan_begin" e = false) -> last_sb (tr ++ Conc.tag t es) t' = last_sb tr t'.
+Proof.
+  intros H. apply last_sb_app_other. intros te Hin. unfold Conc.tag in Hin.
+  apply in_map_iff in Hin. destruct Hin as (e & <- & He). unfold is_sb. cbn.
+  rewrite (H e He). now rewrite andb_false_r.
+Qed.
+
+
+(** ** cells were retired before: clause helpers *)
+Definition retd_cl (g : G) (a : Aux) (tr : trace) : Prop :=
+  forall r p, In p (effc g a r) -> retired_before tr (List.length tr) p.
+Definition retd_scan_cl (g : G) (a : Aux) (tr : trace) : Prop :=
+  forall t sv r s, v_scan (view a t) = Some sv -> v_rec (view a t) = Some r -> last_sb tr t = Some s ->
+    forall p, In p (effc g a r) -> retired_before tr s p.
+Definition pre_cl (tr : trace) : Prop :=
+  forall d t p, nth_error tr d = Some (t, ev_dispose p) ->
+    exists s, last_sb (firstn d tr) t = Some s /\ retired_before tr s p.
+
+Lemma retired_before_ext tr es n p : retired_before tr n p -> retired_before (tr ++ es) n p.
+Proof.
+  intros (i & u & Hi & Hn). exists i, u. split; [exact Hi|]. rewrite nth_error_app1; [exact Hn|].
+  apply nth_error_Some. congruence.
+Qed.
+Lemma retired_before_mono tr n m p : n <= m -> retired_before tr n p -> retired_before tr m p.
+Proof. intros Hle (i & u & Hi & Hn). exists i, u. split; [lia|exact Hn]. Qed.
+
+Lemma retd_cl_ext g a tr es : retd_cl g a tr -> retd_cl g a (tr ++ es).
+Proof.
+  intros H r p Hp. apply retired_before_ext. eapply retired_before_mono; [|apply (H r p Hp)].
+  rewrite app_length; lia.
+Qed.
+
+Lemma retd_scan_cl_ext g a tr t es :
+  retd_scan_cl g a tr -> (forall e, In e es -> is_cli_named "g_scan_begin" e = false) ->
+  retd_scan_cl g a (tr ++ Conc.tag t es).
+Proof.
+  intros H Hq t' sv r s Hsv Hr Hs p Hp. rewrite last_sb_nosb in Hs by exact Hq.
+  apply retired_before_ext. eapply H; eauto.
+Qed.
+
+Lemma pre_cl_ext tr es :
+  pre_cl tr ->
+  (forall k t p, nth_error es k = Some (t, ev_dispose p) ->
+     exists s, last_sb (tr ++ firstn k es) t = Some s /\ retired_before (tr ++ es) s p) ->
+  pre_cl (tr ++ es).
+Proof.
+  intros Hp Hn d t p Hd. destruct (Nat.lt_ge_cases d (List.length tr)) as [Hlt|Hge].
+  - rewrite nth_error_app1 in Hd by exact Hlt. destruct (Hp d t p Hd) as (s & Hs & Hr). exists s.
+    rewrite firstn_app_le by lia. split; [exact Hs|apply retired_before_ext; exact Hr].
+  - rewrite nth_error_app2 in Hd by exact Hge. destruct (Hn _ t p Hd) as (s & Hs & Hr). exists s.
+    rewrite firstn_app. rewrite (firstn_all2 tr) by lia. split; [exact Hs|exact Hr].
+Qed.
+
+Lemma pre_cl_nodispose tr t es :
+  pre_cl tr -> (forall e p, In e es -> e <> ev_dispose p) -> pre_cl (tr ++ Conc.tag t es).
+Proof.
+  intros Hs Hq. apply pre_cl_ext; [exact Hs|].
+  intros k t' p Hk. apply nth_error_tag in Hk. destruct Hk as (_ & Hk).
+  exfalso. apply nth_error_In in Hk. eapply Hq; eauto.
+Qed.
+
+Lemma quiet_nosb e : quiet e = true -> is_cli_named "g_scan_begin" e = false.
+Proof.
+  destruct e as [k o b|n args]; [reflexivity|]. intros H. cbn. apply (quiet_name _ _ "g_scan_begin" H). cbn; tauto.
+Qed.
+
 (** ** 1. neutral events *)
 Lemma resp_last_other tr t t' es : t' <> t -> resp_last (tr ++ Conc.tag t' es) t <-> resp_last tr t.
 Proof. intros H. unfold resp_last. now rewrite last_ev_tag_other. Qed.
@@ -207,13 +285,30 @@ Lemma inv_neutral c g a tr t es :
 Proof.
   intros HI Hn Hr. destruct HI.
   assert (Hq : forall e, In e es -> quiet e = true) by (intros; apply neutral_quiet; auto).
-  apply mkInv; auto.
+  apply mkInv.
   - intros r j. rewrite slot_at_neutral by exact Hn. auto.
+  - exact i_zero_unowned.
+  - exact i_zero_unlisted.
+  - exact i_zero_hi.
+  - exact i_list_lt.
+  - exact i_rec.
+  - exact i_held.
+  - exact i_excl.
+  - exact i_self.
+  - exact i_clr.
+  - exact i_unl.
+  - exact i_seen.
+  - exact i_claim.
+  - exact i_claim_nd.
+  - exact i_eff.
   - now apply bal_cl_quiet.
   - now apply cov_cl_quiet.
   - now apply safe_cl_quiet.
   - now apply kept_cl_quiet.
   - now apply idle_cl_ext.
+  - apply (retd_cl_ext g a tr _ i_retd).
+  - apply (retd_scan_cl_ext g a tr t es i_retd_scan). intros e He. apply quiet_nosb. auto.
+  - apply (pre_cl_nodispose tr t es i_pre). intros e p He. apply quiet_not_dispose. auto.
 Qed.
 
 (** the usual case: one access event *)
@@ -278,9 +373,11 @@ Lemma inv_soft c g a tr t v' :
      exists s, last_sb tr t = Some s /\
        (forall r j v, covered (cH c) sv r j -> v <> 0%Z -> held tr s r j v -> In v (sc_coll sv)) /\
        (forall v, In v (sc_coll sv) -> seen_in tr s (List.length tr) v)) ->
+  (forall sv r s, v_scan v' = Some sv -> v_rec v' = Some r -> last_sb tr t = Some s ->
+     forall p, In p (effc g a r) -> retired_before tr s p) ->
   Inv c g (upd_view a t v') tr.
 Proof.
-  intros HI Hr Hh Hc Hk Hs Hv. destruct HI.
+  intros HI Hr Hh Hc Hk Hs Hv Hrs. destruct HI.
   assert (Ho : forall t' r, owns (view (upd_view a t v') t') r <-> owns (view a t') r).
   { intros t' r. vcase t' t; [|tauto]. unfold owns. rewrite Hr, Hh. tauto. }
   apply mkInv.
@@ -311,6 +408,9 @@ Proof.
   - exact i_kept.
   - intros t' H. specialize (i_idle t' H). vcase t' t; [|exact i_idle].
     unfold idle in *. now rewrite Hh, Hc.
+  - exact i_retd.
+  - intros t' sv r s H1 H2 H3 p Hp. change (In p (effc g a r)) in Hp. vcase t' t; eauto.
+  - exact i_pre.
 Qed.
 
 (** ** 4. a state change in fields the invariant does not mention (free_, client sources) *)
@@ -351,6 +451,9 @@ Proof.
   - exact i_safe.
   - exact i_kept.
   - exact i_idle.
+  - intros r p H. rewrite He in H. eauto.
+  - intros t sv r s H1 H2 H3 p Hp. rewrite He in Hp. eauto.
+  - exact i_pre.
 Qed.
 
 Lemma inv_st_free c g a tr r b : Inv c g a tr -> Inv c (upd_rec g r (set_free b)) a tr.
@@ -474,6 +577,13 @@ Proof.
       { unfold st_slot_evs in He. destruct es' as [|x [|y l]]; cbn in He; inversion He; auto. destruct l; discriminate. }
       subst e. discriminate. }
     intros t' H. specialize (Hi t' H). unfold idle in *. now rewrite Hvh, Hvc.
+  - assert (Hc : retd_cl g a (tr ++ Conc.tag t (st_slot_evs r j v))) by (apply retd_cl_ext; exact i_retd).
+    intros r' p H. apply (Hc r' p). unfold effc in *. cbn in *. now rewrite <- Hret.
+  - assert (Hc : retd_scan_cl g a (tr ++ Conc.tag t (st_slot_evs r j v))).
+    { apply retd_scan_cl_ext; [exact i_retd_scan|]. intros e He. apply quiet_nosb. auto. }
+    intros t' sv r' s H1 H2 H3 p Hp. rewrite Hvs in H1. rewrite Hvr in H2.
+    apply (Hc t' sv r' s H1 H2 H3 p). unfold effc in *. cbn in *. now rewrite <- Hret.
+  - apply pre_cl_nodispose; [exact i_pre|]. intros e p He. apply quiet_not_dispose. auto.
 Qed.
 
 (** ** 6. owner_rec_ changes *)
@@ -500,10 +610,10 @@ Definition with_held (v : lview) (h : list nat) : lview := mkV (v_rec v) h (v_cl
 
 (** alloc_thread_data reuses a free record: CAS owner_rec_ null -> rec succeeded *)
 Lemma inv_acquire_rec c g a tr t r :
-  Inv c g a tr -> v_rec (view a t) = None -> In r (g_list g) -> r_owner (get_rec g r) = false ->
+  Inv c g a tr -> v_rec (view a t) = None -> v_scan (view a t) = None -> In r (g_list g) -> r_owner (get_rec g r) = false ->
   Inv c (upd_rec g r (set_owner true)) (upd_view a t (with_rec (view a t) (Some r))) tr.
 Proof.
-  intros HI Hnone Hin Hfree.
+  intros HI Hnone Hnoscan Hin Hfree.
   assert (Hlt : r < List.length (g_recs g)) by (apply (i_list_lt _ _ _ _ HI); exact Hin).
   assert (Hnobody : forall t', ~ owns (view a t') r).
   { intros t' Ho. pose proof (owns_owner _ _ _ _ _ _ HI Ho). congruence. }
@@ -555,6 +665,12 @@ Proof.
   - exact i_safe.
   - exact i_kept.
   - intros t' H. specialize (i_idle t' H). unfold idle in *. now rewrite Hvh, Hvc.
+  - intros r' p H. apply (i_retd r' p). unfold effc in *. unfold a' in H. cbn [a_eff upd_view] in *. rewrite Hret in H. exact H.
+  - intros t' sv r' s H1 H2 H3 p Hp. rewrite Hvs in H1.
+    assert (H2' : v_rec (view a t') = Some r').
+    { unfold a' in H2. vcase t' t; [congruence|exact H2]. }
+    apply (i_retd_scan t' sv r' s H1 H2' H3 p). unfold effc in *. unfold a' in Hp. cbn [a_eff upd_view] in *. rewrite Hret in Hp. exact Hp.
+  - exact i_pre.
 Qed.
 
 Lemma NoDup_remove_eq (l : list nat) x : NoDup l -> NoDup (remove Nat.eq_dec x l).
@@ -627,6 +743,10 @@ Proof.
   - exact i_safe.
   - exact i_kept.
   - intros t' H. unfold a'. vcase t' t; [contradiction|auto].
+  - intros r' p H. apply (i_retd r' p). unfold effc in *. unfold a' in H. cbn [a_eff upd_view] in *. rewrite Hret in H. exact H.
+  - intros t' sv r' s H1 H2 H3 p Hp. rewrite Hvs in H1. rewrite Hvr in H2.
+    apply (i_retd_scan t' sv r' s H1 H2 H3 p). unfold effc in *. unfold a' in Hp. cbn [a_eff upd_view] in *. rewrite Hret in Hp. exact Hp.
+  - exact i_pre.
 Qed.
 
 (** free_thread_data: owner_rec_.store( nullptr ) of the attached record, all of whose slots are null *)
@@ -682,6 +802,10 @@ Proof.
   - exact i_safe.
   - exact i_kept.
   - intros t' H. specialize (i_idle t' H). unfold idle in *. now rewrite Hvh, Hvc.
+  - intros r' p H. apply (i_retd r' p). unfold effc in *. unfold a' in H. cbn [a_eff upd_view] in *. rewrite Hret in H. exact H.
+  - intros t' sv r' s H1 H2 H3 p Hp. rewrite Hvs in H1. apply Hvr in H2. destruct H2 as (H2 & _).
+    apply (i_retd_scan t' sv r' s H1 H2 H3 p). unfold effc in *. unfold a' in Hp. cbn [a_eff upd_view] in *. rewrite Hret in Hp. exact Hp.
+  - exact i_pre.
 Qed.
 
 (** help_scan gives a claimed record back: owner_rec_.store( nullptr ) *)
@@ -743,6 +867,10 @@ Proof.
   - exact i_kept.
   - intros t' H. specialize (i_idle t' H). unfold a'. vcase t' t; [|exact i_idle].
     destruct i_idle as (E & _). rewrite E in Hheld. destruct Hheld.
+  - intros r' p H. apply (i_retd r' p). unfold effc in *. unfold a' in H. cbn [a_eff upd_view] in *. rewrite Hret in H. exact H.
+  - intros t' sv r' s H1 H2 H3 p Hp. rewrite Hvs in H1. rewrite Hvr in H2.
+    apply (i_retd_scan t' sv r' s H1 H2 H3 p). unfold effc in *. unfold a' in Hp. cbn [a_eff upd_view] in *. rewrite Hret in Hp. exact Hp.
+  - exact i_pre.
 Qed.
 
 (** ** 7. create_thread_data + first store, and the push onto thread_list_ *)
@@ -842,6 +970,10 @@ Proof.
   - exact i_safe.
   - exact i_kept.
   - intros t' H. unfold a'. vcase t' t; [contradiction|auto].
+  - intros r' p H. apply (i_retd r' p). unfold effc in *. unfold a' in H. cbn [a_eff upd_view] in *. rewrite Hret in H. exact H.
+  - intros t' sv r' s H1 H2 H3 p Hp. rewrite Hvs in H1. rewrite Hvr in H2.
+    apply (i_retd_scan t' sv r' s H1 H2 H3 p). unfold effc in *. unfold a' in Hp. cbn [a_eff upd_view] in *. rewrite Hret in Hp. exact Hp.
+  - exact i_pre.
 Qed.
 
 (** the CAS that publishes the new record at the head of thread_list_ *)
@@ -850,10 +982,10 @@ Definition pushed_view (v : lview) (r : nat) : lview :=
   mkV (Some r) (remove Nat.eq_dec r (v_held v)) 0 (v_scan v) (v_cl v) (v_seen v).
 
 Lemma inv_push c g a tr t r :
-  Inv c g a tr -> v_rec (view a t) = None -> In r (v_held (view a t)) ->
+  Inv c g a tr -> v_rec (view a t) = None -> v_scan (view a t) = None -> In r (v_held (view a t)) ->
   Inv c (push_rec g r) (upd_view a t (pushed_view (view a t) r)) tr.
 Proof.
-  intros HI Hnone Hheld.
+  intros HI Hnone Hnoscan Hheld.
   destruct (i_held _ _ _ _ HI t r Hheld) as (Hlt & Howner & Hzero).
   destruct HI.
   set (g' := push_rec g r). set (a' := upd_view a t (pushed_view (view a t) r)).
@@ -901,6 +1033,12 @@ Proof.
   - exact i_kept.
   - intros t' H. specialize (i_idle t' H). unfold a'. vcase t' t; [|exact i_idle].
     destruct i_idle as (E & _). rewrite E in Hheld. destruct Hheld.
+  - exact i_retd.
+  - intros t' sv r' s H1 H2 H3 p Hp. rewrite Hvs in H1.
+    assert (H2' : v_rec (view a t') = Some r').
+    { unfold a' in H2. vcase t' t; [congruence|exact H2]. }
+    apply (i_retd_scan t' sv r' s H1 H2' H3 p). exact Hp.
+  - exact i_pre.
 Qed.
 
 (** ** 8. steps on retired arrays: the owner changes its claims, the effective contents, the cells *)
@@ -983,9 +1121,14 @@ Lemma inv_claims c g a tr t g' eff' cl' es :
   bal_cl g' a' (tr ++ Conc.tag t es) ->
   safe_cl c (tr ++ Conc.tag t es) ->
   (resp_last (tr ++ Conc.tag t es) t -> v_held (view a t) = [] /\ cl' = []) ->
+  (forall r p, owns (view a t) r -> In p (effc g' a' r) ->
+     retired_before (tr ++ Conc.tag t es) (List.length (tr ++ Conc.tag t es)) p) ->
+  (forall sv r s, v_scan (view a t) = Some sv -> v_rec (view a t) = Some r -> last_sb (tr ++ Conc.tag t es) t = Some s ->
+     forall p, In p (effc g' a' r) -> retired_before (tr ++ Conc.tag t es) s p) ->
+  pre_cl (tr ++ Conc.tag t es) ->
   Inv c g' a' (tr ++ Conc.tag t es).
 Proof.
-  intros HI Hlist Hlen Hos Hother a' Hcl Hnd Heff Hm Hbal Hsafe Hidle.
+  intros HI Hlist Hlen Hos Hother a' Hcl Hnd Heff Hm Hbal Hsafe Hidle Hretd_t Hrs_t Hpre.
   assert (Hs : forall r j, gslot g' r j = gslot g r j).
   { intros r j. unfold gslot. destruct (Hos r) as (_ & ->). reflexivity. }
   assert (Ho : forall r, r_owner (get_rec g' r) = r_owner (get_rec g r)) by (intros r; apply Hos).
@@ -1052,6 +1195,19 @@ Proof.
     + destruct (Hidle H) as (E1 & E2). unfold a'. rewrite view_set_claims_same. split; assumption.
     + unfold a'. rewrite view_set_claims_other by exact Hne. apply i_idle.
       apply (resp_last_other tr t' t es); [congruence|exact H].
+  - intros r p H. destruct (owns_dec (view a t) r) as [Hown|Hno]; [now apply Hretd_t|].
+    destruct (Hother _ Hno) as (E1 & E2).
+    assert (E : effc g' a' r = effc g a r) by (unfold effc, a'; cbn; now rewrite E1, E2).
+    rewrite E in H. apply (retd_cl_ext g a tr _ i_retd r p H).
+  - intros t' sv r s H1 H2 H3 p Hp. rewrite Hvs in H1. rewrite Hvr in H2.
+    destruct (Nat.eq_dec t' t) as [->|Hne]; [eapply Hrs_t; eauto|].
+    assert (Hno : ~ owns (view a t) r).
+    { intros Ho. apply Hne. eapply i_excl; [left; exact H2|exact Ho]. }
+    destruct (Hother _ Hno) as (E1 & E2).
+    assert (E : effc g' a' r = effc g a r) by (unfold effc, a'; cbn; now rewrite E1, E2).
+    rewrite E in Hp. rewrite last_sb_mild in H3 by exact Hm.
+    apply retired_before_ext. eapply i_retd_scan; eauto.
+  - exact Hpre.
 Qed.
 
 Definition set_eff (eff : nat -> option (list Z)) (r : nat) (o : option (list Z)) : nat -> option (list Z) :=
@@ -1081,9 +1237,15 @@ Lemma inv_claim1 c g a tr t r g' co cn rest neweff es :
   bal_cl g' a' (tr ++ Conc.tag t es) ->
   safe_cl c (tr ++ Conc.tag t es) ->
   (resp_last (tr ++ Conc.tag t es) t -> v_held (view a t) = [] /\ cn ++ rest = []) ->
+  (forall p, In p (effc g' a' r) ->
+     In p (effc g a r) \/
+     (v_scan (view a t) = None /\ retired_before (tr ++ Conc.tag t es) (List.length (tr ++ Conc.tag t es)) p)) ->
+  pre_cl (tr ++ Conc.tag t es) ->
   Inv c g' a' (tr ++ Conc.tag t es).
 Proof.
-  intros HI Hown Hlist Hlen Hos Hret Hcl Hco Hrest Hcn Hcn1 a' Hok Hne Hm Hbal Hsafe Hidle.
+  intros HI Hown Hlist Hlen Hos Hret Hcl Hco Hrest Hcn Hcn1 a' Hok Hne Hm Hbal Hsafe Hidle Hsub Hpre.
+  assert (Hsame : forall r0, r0 <> r -> effc g' a' r0 = effc g a r0).
+  { intros r0 Hn0. unfold effc, a'; cbn. rewrite set_eff_other by exact Hn0. now rewrite Hret. }
   apply (inv_claims c g a tr t g' (set_eff (a_eff a) r neweff) (cn ++ rest) es); auto.
   - intros r' Hno. assert (r' <> r) by (intros ->; contradiction).
     split; [now apply Hret|now apply set_eff_other].
@@ -1108,6 +1270,13 @@ Proof.
       subst t'. rewrite Hcl in H1. apply in_app_or in H1. destruct H1 as [H1|H1].
       * exfalso. apply Hn0. rewrite <- H2. now apply Hco.
       * exists cl. split; [apply in_or_app; now right|exact H2].
+  - intros r0 p Ho0 Hp. destruct (Nat.eq_dec r0 r) as [->|Hn0].
+    + destruct (Hsub p Hp) as [H|(_ & H)]; [|exact H]. apply (retd_cl_ext g a tr _ (i_retd _ _ _ _ HI) r p H).
+    + fold a' in Hp. rewrite Hsame in Hp by exact Hn0. apply (retd_cl_ext g a tr _ (i_retd _ _ _ _ HI) r0 p Hp).
+  - intros sv r0 s H1 H2 H3 p Hp. rewrite last_sb_mild in H3 by exact Hm. apply retired_before_ext.
+    destruct (Nat.eq_dec r0 r) as [->|Hn0].
+    + destruct (Hsub p Hp) as [H|(H & _)]; [|congruence]. eapply (i_retd_scan _ _ _ _ HI); eauto.
+    + fold a' in Hp. rewrite Hsame in Hp by exact Hn0. eapply (i_retd_scan _ _ _ _ HI); eauto.
 Qed.
 
 Lemma eff_none c g a tr t r :
@@ -1339,25 +1508,6 @@ Proof.
 Qed.
 
 (** ** 9. scan markers *)
-Lemma slot_at_noslot tr t es r j :
-  (forall e, In e es -> is_cli_named "g_slot" e = false) -> slot_at (tr ++ Conc.tag t es) r j = slot_at tr r j.
-Proof.
-  intros H. rewrite slot_at_app. generalize (slot_at tr r j). unfold Conc.tag.
-  induction es as [|e es IH]; intros z; cbn; [reflexivity|].
-  rewrite IH by (intros; apply H; now right). f_equal.
-  pose proof (H e (or_introl eq_refl)) as H1.
-  destruct e as [k o b|n args]; [reflexivity|]. cbn in *.
-  destruct args as [|x [|y [|z' [|w rest]]]]; try reflexivity. now rewrite H1.
-Qed.
-
-Lemma last_sb_nosb tr t es t' :
-  (forall e, In e es -> is_cli_named "g_scan_begin" e = false) -> last_sb (tr ++ Conc.tag t es) t' = last_sb tr t'.
-Proof.
-  intros H. apply last_sb_app_other. intros te Hin. unfold Conc.tag in Hin.
-  apply in_map_iff in Hin. destruct Hin as (e & <- & He). unfold is_sb. cbn.
-  rewrite (H e He). now rewrite andb_false_r.
-Qed.
-
 Lemma cov_one_ext c sv tr es s :
   last_sb tr s = last_sb tr s -> forall t,
   last_sb tr t = Some s ->
@@ -1452,6 +1602,8 @@ Proof.
   - intros r' H. cbn in H. apply (i_seen _ _ _ _ HI t r' H).
   - intros sv H. cbn in H. inversion H; subst sv. exists (S (List.length tr)). split; [apply last_sb_sb_evs|].
     split; [intros r' j v []|intros v []].
+  - intros sv r' s H1 H2 H3 p Hp. rewrite last_sb_sb_evs in H3. inversion H3; subst s.
+    apply retired_before_ext. eapply retired_before_mono; [|apply (i_retd _ _ _ _ HI r' p Hp)]. lia.
 Qed.
 
 (** the return of scan(): the cells kept were all seen in some hazard slot during the scan *)
@@ -1506,6 +1658,7 @@ Proof.
   - eapply inv_trace_scan_end; eauto.
   - intros r' H. cbn in H. apply (i_seen _ _ _ _ HI t r' H).
   - intros sv' H. discriminate.
+  - intros sv' r' s H. discriminate.
 Qed.
 
 (** ** 10. disposer calls of stage 2 *)
@@ -1659,9 +1812,10 @@ Definition with_seen (v : lview) (l : list nat) : lview := mkV (v_rec v) (v_held
 Lemma inv_set_seen c g a tr t :
   Inv c g a tr -> Inv c g (upd_view a t (with_seen (view a t) (g_list g))) tr.
 Proof.
-  intros HI. apply inv_soft; try reflexivity; [exact HI| |].
+  intros HI. apply inv_soft; try reflexivity; [exact HI| | |].
   - intros r H. exact H.
   - intros sv H. cbn in H. apply (i_cov _ _ _ _ HI t sv H).
+  - intros sv r s H1 H2 H3 p Hp. cbn in H1, H2. eapply (i_retd_scan _ _ _ _ HI); eauto.
 Qed.
 
 Definition scan_view (v : lview) (sv : scanv) (seen : list nat) : lview :=
@@ -1678,10 +1832,11 @@ Lemma inv_scan_step c g a tr t sv sv' seen :
      (forall v, In v (sc_coll sv') -> seen_in tr s (List.length tr) v)) ->
   Inv c g (upd_view a t (scan_view (view a t) sv' seen)) tr.
 Proof.
-  intros HI Hsv Hseen Hstep. apply inv_soft; try reflexivity; [exact HI|exact Hseen|].
-  intros sv0 H. cbn in H. inversion H; subst sv0.
-  destruct (i_cov _ _ _ _ HI t sv Hsv) as (s & Hs & Hcv & Hsn). exists s. split; [exact Hs|].
-  apply Hstep; assumption.
+  intros HI Hsv Hseen Hstep. apply inv_soft; try reflexivity; [exact HI|exact Hseen| |].
+  - intros sv0 H. cbn in H. inversion H; subst sv0.
+    destruct (i_cov _ _ _ _ HI t sv Hsv) as (s & Hs & Hcv & Hsn). exists s. split; [exact Hs|].
+    apply Hstep; assumption.
+  - intros sv0 r s H1 H2 H3 p Hp. cbn in H2. eapply (i_retd_scan _ _ _ _ HI); eauto.
 Qed.
 
 Lemma held_slot c g a tr s r j v t : Inv c g a tr -> last_sb tr t = Some s -> held tr s r j v -> gslot g r j = v.
